@@ -65,7 +65,7 @@ pub fn reference(
 
 // ---------------------------------------------------------------------------
 
-pub const FAULT_NAMES: [&str; 14] = [
+pub const FAULT_NAMES: [&str; 15] = [
     "caught_panic_in_op",
     "thread_crash",
     "exit_then_respawn",
@@ -82,6 +82,8 @@ pub const FAULT_NAMES: [&str; 14] = [
     "foreign_op_while_parked_mid_operation",
     // threads created and ended by `churn` steps (thread-id / slot reuse)
     "short_lived_threads_churned",
+    // `crowd` steps executed (many threads alive at the same time)
+    "crowd_of_live_threads",
 ];
 
 #[derive(Clone, Default)]
@@ -437,6 +439,9 @@ pub fn judge(
     }
     stats.faults[2] += res.respawn_after_death as u64;
     stats.faults[13] += res.churned as u64;
+    if res.crowded > 0 {
+        stats.faults[14] += 1;
+    }
     stats.dtor_missing += res.dtor_missing as u64;
     stats.max_live = stats.max_live.max(res.max_live);
     Ok(Judged { violations, nontrivial })
